@@ -226,6 +226,12 @@ type descriptor struct {
 	// not judged, only that it comes to rest); at the end the run context is
 	// cancelled too and everything must be gone as usual.
 	Split bool `json:"split,omitempty"`
+	// SplitRun: as Split, but at position K only the RUN context (the one given
+	// to StartAll) is cancelled while the construction context lives on. From
+	// that moment every task request - issued before, racing with or after the
+	// cancellation, at process level or inside sub-processes - carries a
+	// cancelled context; the construction context is cancelled at the end.
+	SplitRun bool `json:"splitRun,omitempty"`
 }
 
 type result struct {
@@ -270,7 +276,7 @@ func run(d descriptor, k int) *result {
 	}
 	prog := &gen.Program{G: e.G, DefaultLang: "expr"}
 	tr := quiesce.Begin()
-	in, err := drive.New(prog.XML(), drive.Options{Vars: e.Vars, Tracker: tr, MockClock: e.Timer, SplitCtx: d.Split})
+	in, err := drive.New(prog.XML(), drive.Options{Vars: e.Vars, Tracker: tr, MockClock: e.Timer, SplitCtx: d.Split || d.SplitRun})
 	if err != nil {
 		r.Symptom, r.Detail = "construct", err.Error()
 		return r
@@ -281,8 +287,12 @@ func run(d descriptor, k int) *result {
 	in.OnTrace = func(idx int, t tracing.ITrace) {
 		if k > 0 && idx+1 == k && !cancelled.Load() {
 			cancelIdx.Store(int64(idx))
-			in.Cancel()
-			if !d.Split {
+			if d.SplitRun {
+				in.CancelRun()
+			} else {
+				in.Cancel()
+			}
+			if !d.Split && !d.SplitRun {
 				cancelled.Store(true)
 			}
 		}
@@ -299,8 +309,12 @@ func run(d descriptor, k int) *result {
 		return r
 	}
 	if k == 0 {
-		in.Cancel()
-		if !d.Split {
+		if d.SplitRun {
+			in.CancelRun()
+		} else {
+			in.Cancel()
+		}
+		if !d.Split && !d.SplitRun {
 			cancelled.Store(true)
 		}
 	}
@@ -320,7 +334,7 @@ func run(d descriptor, k int) *result {
 	for _, s := range e.Script {
 		gs, err := tr.Wait(ceiling)
 		if err != nil {
-			if cancelled.Load() || (d.Split && cancelIdx.Load() >= 0) {
+			if cancelled.Load() || ((d.Split || d.SplitRun) && cancelIdx.Load() >= 0) {
 				return finish("busy", "after cancel the instance's goroutines do not come to rest (spinning): "+shortBusy(err), gs)
 			}
 			r.Inconcl = err.Error()
@@ -389,7 +403,7 @@ func run(d descriptor, k int) *result {
 	}
 	gs, err := tr.Wait(ceiling)
 	if err != nil {
-		if cancelled.Load() || (d.Split && (cancelIdx.Load() >= 0 || k == 0)) {
+		if cancelled.Load() || ((d.Split || d.SplitRun) && (cancelIdx.Load() >= 0 || k == 0)) {
 			return finish("busy", "after cancel the instance's goroutines do not come to rest (spinning): "+shortBusy(err), gs)
 		}
 		r.Inconcl = err.Error()
@@ -403,6 +417,16 @@ func run(d descriptor, k int) *result {
 		// dry run: just count, then clean up
 		in.Close()
 		return r
+	}
+	if d.SplitRun && (cancelIdx.Load() >= 0 || k == 0) {
+		// the run context is gone, the construction context is not: no task
+		// request may carry a live context any more
+		for i, t := range in.Traces() {
+			if tt, ok := t.(bpmn.TaskTrace); ok && tt.Context().Err() == nil {
+				id, _ := tt.GetActivity().Element().Id()
+				return finish("live-context", fmt.Sprintf("the context given to StartAll was cancelled at trace %d; the task request for %s (trace %d) carries a context that is still alive", cancelIdx.Load(), *id, i), nil)
+			}
+		}
 	}
 	if !cancelled.Load() {
 		// the run ended before position k was reached: cancel now (end-of-life cancellation)
@@ -497,6 +521,9 @@ func one(t interface{ Fatalf(string, ...any) }, test string, d descriptor, total
 	if d.Split {
 		cls = append(cls, "constructionContextCancelledFirst")
 	}
+	if d.SplitRun {
+		cls = append(cls, "runContextCancelledFirst")
+	}
 	rec.Case(test, hash, nt, cls, map[string]any{"case": d, "program": name, "tracesBeforeCancelOf": total})
 	if r.Symptom == "" {
 		return
@@ -544,13 +571,20 @@ func TestC07Points(t *testing.T) {
 		for i := range cp {
 			for k := 0; k <= totals[i]+1; k++ {
 				one(t, "TestC07Points", descriptor{Entry: i, K: k}, totals[i])
+				one(t, "TestC07Points", descriptor{Entry: i, K: k, Split: true}, totals[i])
+				one(t, "TestC07Points", descriptor{Entry: i, K: k, SplitRun: true}, totals[i])
 			}
 		}
 	}
 	rapid.Check(t, func(rt *rapid.T) {
 		i := rapid.IntRange(0, len(cp)-1).Draw(rt, "entry")
-		d := descriptor{Entry: i, K: rapid.IntRange(0, totals[i]+1).Draw(rt, "k"), Perturb: uint64(rapid.IntRange(0, 200).Draw(rt, "perturb")),
-			Split: rapid.IntRange(0, 3).Draw(rt, "splitContexts") == 0}
+		d := descriptor{Entry: i, K: rapid.IntRange(0, totals[i]+1).Draw(rt, "k"), Perturb: uint64(rapid.IntRange(0, 200).Draw(rt, "perturb"))}
+		switch rapid.IntRange(0, 5).Draw(rt, "splitContexts") {
+		case 0:
+			d.Split = true
+		case 1:
+			d.SplitRun = true
+		}
 		one(rt, "TestC07Points", d, totals[i])
 	})
 }
@@ -574,7 +608,12 @@ func TestC07Generated(t *testing.T) {
 			rt.Fatalf("inconclusive: %s", dry.Inconcl)
 		}
 		d.K = rapid.IntRange(0, dry.Total+1).Draw(rt, "k")
-		d.Split = rapid.IntRange(0, 3).Draw(rt, "splitContexts") == 0
+		switch rapid.IntRange(0, 5).Draw(rt, "splitContexts") {
+		case 0:
+			d.Split = true
+		case 1:
+			d.SplitRun = true
+		}
 		one(rt, "TestC07Generated", d, dry.Total)
 	})
 }
